@@ -5,6 +5,7 @@
 -/
 import Gama.Model.GeoScalar
 import Gama.Gen.Ellipsoids
+import Gama.Gen.GeoVariants
 namespace Gama
 open Scalar Transc
 
@@ -126,11 +127,14 @@ def bowring1 (e : Ellipsoid K) (x z : K) : K :=
   let yx := e.bowringYX x z sin_u sin2_u cos_u cos2_u
   atan2 yx.1 yx.2
 
-/-- second pass: parametric latitude from the latitude of the first pass -/
-def bowring2 (e : Ellipsoid K) (x z b : K) : K :=
+/-- second pass: parametric latitude from the latitude of the first pass.
+    `clamp`: the repaired code adds `if (cos2_u < 0) cos2_u = 0;` (at the poles rounding can make
+    |sin_u| > 1 and the original takes the square root of a negative number) -/
+def bowring2 (clamp : Bool) (e : Ellipsoid K) (x z b : K) : K :=
   let sin_u := e.Ime2 * e.N b / e.B * sin b
   let sin2_u := sin_u * sin_u
   let cos2_u := 1 - sin2_u
+  let cos2_u := if clamp && decide (cos2_u < 0) then 0 else cos2_u
   let cos_u := Scalar.sqrt cos2_u
   let yx := e.bowringYX x z sin_u sin2_u cos_u cos2_u
   atan2 yx.1 yx.2
@@ -144,7 +148,7 @@ def heightOf (e : Ellipsoid K) (x z b : K) : K :=
 def halfPi : K := (pi : K) / Scalar.ofNat 2
 
 /-- `Ellipsoid::xyz2blh`; result `(b, l, h)` -/
-def xyz2blh (e : Ellipsoid K) (x y z : K) : K × K × K :=
+def xyz2blhWith (clamp : Bool) (e : Ellipsoid K) (x y z : K) : K × K × K :=
   let l := atan2 y x
   match axisDist x y with
   | none =>
@@ -156,8 +160,11 @@ def xyz2blh (e : Ellipsoid K) (x y z : K) : K × K × K :=
       (b, 0, -z - e.Ime2 * e.N b)
   | some x =>
     let b := e.bowring1 x z
-    let b := e.bowring2 x z b
+    let b := e.bowring2 clamp x z b
     (b, l, e.heightOf x z b)
+
+/-- the variant the current tree contains -/
+def xyz2blh (e : Ellipsoid K) (x y z : K) : K × K × K := xyz2blhWith Gen.bowringClamp e x y z
 
 end Ellipsoid
 end Gama
